@@ -998,9 +998,21 @@ def feature_of(v):
 
     if t is types.FunctionType:
         return "lambda" if v.__name__ == "<lambda>" else "function"
-    if t in (set, dict) and len({str(k) for k in v}) < len(v):
-        return t.__name__ + "&" + ("keys" if t is dict else "elements") + "-with-equal-str"
+    if t in (set, frozenset, dict):
+        # keys / elements whose str() depends on an iteration order (dask sorts items by str(key))
+        if any(_has_unordered(k) for k in v):
+            return t.__name__ + ("-key" if t is dict else "-element") + "-is-unordered-container"
+        if t is not frozenset and len({str(k) for k in v}) < len(v):
+            return t.__name__ + "&" + ("keys" if t is dict else "elements") + "-with-equal-str"
     return t.__name__
+
+
+def _has_unordered(k):
+    if type(k) in (frozenset, set):
+        return len(k) >= 2 or any(_has_unordered(x) for x in k)
+    if type(k) is tuple:
+        return any(_has_unordered(x) for x in k)
+    return False
 
 
 def children(v):
@@ -2291,6 +2303,23 @@ def g_setorder_pair(r):
         a, b = ["tuple", [a, d_int(1)]], ["tuple", [b, d_int(1)]]
     elif c < 0.3:
         a, b = ["dict", [[d_str("k"), a]]], ["dict", [[d_str("k"), b]]]
+    elif c < 0.55:
+        # the frozenset as a dict key / set element, next to siblings that differ from it in one element
+        fa, fb = ["frozenset", elems], ["frozenset", other]
+        sibs = []
+        for j in range(min(len(elems), 3)):
+            e2 = list(elems)
+            e2[j] = d_int(r.randint(1000, 1003)) if r.random() < 0.5 else d_str("zz%d" % j)
+            sibs.append(["frozenset", e2])
+        kind = r.choice(("dict", "set", "frozenset", "dict-tuple-key"))
+        if kind == "dict":
+            a = ["dict", [[fa, d_int(0)]] + [[sb, d_int(i + 1)] for i, sb in enumerate(sibs)]]
+            b = ["dict", [[fb, d_int(0)]] + [[sb, d_int(i + 1)] for i, sb in enumerate(sibs)]]
+        elif kind == "dict-tuple-key":
+            a = ["dict", [[["tuple", [fa, d_int(1)]], d_int(0)]] + [[["tuple", [sb, d_int(1)]], d_int(i + 1)] for i, sb in enumerate(sibs)]]
+            b = ["dict", [[["tuple", [fb, d_int(1)]], d_int(0)]] + [[["tuple", [sb, d_int(1)]], d_int(i + 1)] for i, sb in enumerate(sibs)]]
+        else:
+            a, b = [kind, [fa] + sibs], [kind, [fb] + sibs]
     return a, b
 
 
